@@ -165,6 +165,56 @@ fn value_checks(s: &mut Sink) {
         one("Interval<String>", &Interval::UpperOneSided(a.to_string()), false, s);
         one("Interval<String>", &Interval::LowerOneSided(a.to_string()), false, s);
     }
+    // registers holding data of extreme (legitimate) magnitudes: squares that underflow or
+    // come close to overflow must not prevent a state from being restored
+    fn regs<T: Acc + Serialize + DeserializeOwned + PartialEq>(scales: &[i32], s: &mut Sink) {
+        use vcheck::models::Obs;
+        for &e in scales {
+            let k = 2f64.powi(e);
+            let data: Vec<Obs> = T::alphabet()
+                .iter()
+                .cycle()
+                .take(5)
+                .map(|o| match *o {
+                    Obs::V(x) => Obs::V(x.abs().max(0.25) * k),
+                    Obs::P(x, y) => Obs::P(x * k, y * k),
+                    Obs::A(x) => Obs::A(x * k),
+                    Obs::B(x) => Obs::B(x * k),
+                    o => o,
+                })
+                .collect();
+            let r = T::from_iter(&data);
+            let d0 = format!("{r:?}");
+            let nonfinite = d0.contains("inf") || d0.contains("NaN");
+            for f in FMTS {
+                s.evals += 1;
+                s.calls += 2;
+                let case = json!({"check":"value","what":T::NAME,"value":d0,"format":format!("{f:?}"),"scale_exponent":e});
+                match round_trip(f, &r, nonfinite) {
+                    Ok(None) => s.skipped += 1,
+                    Err(m) => s.violation(format!("{}/{f:?}/round-trip-fails-at-extreme-magnitude", T::NAME), format!("data x 2^{e}: {d0}: {m}"), case),
+                    Ok(Some(b)) => {
+                        s.outcome(&(T::NAME, format!("{f:?}"), "magnitude", e.signum()));
+                        if format!("{b:?}") != d0 {
+                            s.violation(format!("{}/{f:?}/restored-state-differs", T::NAME), format!("{d0} restored as {b:?}"), case);
+                        }
+                    }
+                }
+            }
+        }
+    }
+    let s64 = [-1000, -600, -200, 0, 200, 500];
+    let s32 = [-120, -70, -30, 0, 30, 60];
+    regs::<Arithmetic<f64>>(&s64, s);
+    regs::<Geometric<f64>>(&s64, s);
+    regs::<Harmonic<f64>>(&s64, s);
+    regs::<Paired<f64>>(&s64, s);
+    regs::<Unpaired<f64>>(&s64, s);
+    regs::<Arithmetic<f32>>(&s32, s);
+    regs::<Geometric<f32>>(&s32, s);
+    regs::<Harmonic<f32>>(&s32, s);
+    regs::<Paired<f32>>(&s32, s);
+    regs::<Unpaired<f32>>(&s32, s);
     let us = [0usize, 1, 57, 1 << 40];
     for &a in &us {
         one("Interval<usize>", &Interval::TwoSided(a, a + 1), false, s);
